@@ -25,8 +25,8 @@ OUTSIDE = ["Sphinx cross-document resolution (C12)", "arbitrary Unicode names (f
 STUBS = []
 NONTRIVIAL_RULE = "paths with at least one link that resolves to an explicit target or slug and at least one target in the document"
 
-NAMES = ["a", "Name", "x-y"]
-TITLES = ["a", "A b", "Name"]
+NAMES = ["a", "Name", "x-y", "caf\u00e9"]
+TITLES = ["a", "A b", "Name", "Z\u00e9"]
 
 
 def setup():
@@ -39,7 +39,7 @@ def slug_of(title):
     return re.sub(r"[^\w一-鿿\- ]", "", title.lower().replace(" ", "-"))
 
 
-def gen_document(c, nt, nh, nl, slugfunc=False):
+def gen_document(c, nt, nh, nl, slugfunc=False, plain_links=False):
     """Returns (text, spec) with spec = dict(explicit={normname: (kind, title)}, slugs=[(slug, title)], links=[(line, target, has_text, text)])."""
     lines = []
     explicit = {}
@@ -48,7 +48,7 @@ def gen_document(c, nt, nh, nl, slugfunc=False):
     links = []
     items = []
     for _ in range(nt):
-        items.append(("target", c.pick(NAMES), c.choose(4)))
+        items.append(("target", c.pick(NAMES), c.choose(6)))
     for _ in range(nh):
         items.append(("heading", c.pick(["a", "Name", "Ab"] if slugfunc else TITLES), 1 + c.choose(2)))
     # order: interleave by a chosen rotation
@@ -73,9 +73,16 @@ def gen_document(c, nt, nh, nl, slugfunc=False):
             elif kind == 1:
                 lines += ["{#%s}" % name, "Para with id %s" % name, ""]
                 explicit[norm] = ("paragraph", None)
-            else:
+            elif kind == 2:
                 lines += ["```{note}", ":name: %s" % name, "", "Note %s" % name, "```", ""]
                 explicit[norm] = ("note", None)
+            elif kind == 4:
+                lines += ["```{admonition} Adm *title* %s" % name, ":name: %s" % name, "", "Body %s" % name, "```", ""]
+                explicit[norm] = ("admonition", "Adm title %s" % name)
+            else:
+                # (docutils puts a figure's :name: on its image, so a captioned table is used as the captioned element)
+                lines += ["```{table} Caption of %s" % name, ":name: %s" % name, "", "| c |", "|---|", "| 1 |", "```", ""]
+                explicit[norm] = ("table", "Caption of %s" % name)
         else:
             _, title, level = it
             lines += ["#" * level + " " + title, ""]
@@ -88,9 +95,9 @@ def gen_document(c, nt, nh, nl, slugfunc=False):
             used_slugs.add(s)
             slugs.append((s, title))
     for _ in range(nl):
-        target = c.pick(NAMES + (["bA", "emaN", "eman", "a-1"] if slugfunc else ["a-b", "missing", "a-1", "name", "fnx"]))
-        style = c.choose(3)  # 0 [text](#t), 1 [](#t), 2 <project:#t>
-        place = c.choose(2)  # 0 top, 1 quote
+        target = c.pick(NAMES + (["bA", "emaN", "eman", "a-1"] if slugfunc else ["a-b", "missing", "a-1", "name", "fnx", "z\u00e9"]))
+        style = 1 + c.choose(2) if plain_links else c.choose(3)  # 0 [text](#t), 1 [](#t), 2 <project:#t>
+        place = 0 if plain_links else c.choose(2)  # 0 top, 1 quote
         if style == 0:
             md = "[txt %d](#%s)" % (len(links), target)
         elif style == 1:
@@ -121,7 +128,7 @@ def check_document(doc, warnings_text, spec):
         if has_text and text not in own_text:
             return ("text-lost", "link to #%s lost its text %r (has %r)" % (target, text, own_text))
         if norm in spec["explicit"]:
-            kind, _ = spec["explicit"][norm]
+            kind, ttl = spec["explicit"][norm]
             if "refid" not in ref:
                 return ("explicit-unresolved", "link #%s to an explicit target has no refid" % target)
             node = ids.get(ref["refid"])
@@ -133,6 +140,8 @@ def check_document(doc, warnings_text, spec):
                 return ("wrong-target", "link #%s resolved to %s with names %r" % (target, node.tagname, names))
             if not has_text and not own_text:
                 return ("empty-text", "link [](#%s) to an explicit target has no text" % target)
+            if not has_text and own_text != (ttl if ttl else "#" + target):
+                return ("implicit-text", "link [](#%s) to the %s named %r shows %r, expected %r (its own title/caption, else '#name')" % (target, kind, norm, own_text, ttl if ttl else "#" + target))
             if any(isinstance(ch, nodes.system_message) for ch in ref.children):
                 return ("spurious-warning", "resolved link #%s carries a warning" % target)
         elif target in slugmap:
@@ -170,7 +179,7 @@ def overrides(slugfunc):
     return o
 
 
-def make_docs(eng, nt, nh, nl, slugfunc=False):
+def make_docs(eng, nt, nh, nl, slugfunc=False, plain_links=False):
     setup()
     c = CR.Choice(eng)
     state = {}
@@ -178,7 +187,7 @@ def make_docs(eng, nt, nh, nl, slugfunc=False):
 
     def body():
         c.reset()
-        text, spec = gen_document(c, nt, nh, nl, slugfunc)
+        text, spec = gen_document(c, nt, nh, nl, slugfunc, plain_links)
         spec["slugfunc"] = slugfunc
         state["text"], state["spec"] = text, spec
         try:
@@ -205,8 +214,9 @@ def families(tier, seed):
     q = tier == "quick"
     F = []
     for nt, nh, nl in ([(1, 1, 1), (0, 2, 1), (2, 1, 1), (1, 2, 1)] if q else [(1, 1, 1), (0, 2, 1), (1, 1, 2), (2, 2, 1), (0, 3, 1), (2, 1, 2)]):
-        F.append(Family("docs/T%d-H%d-L%d" % (nt, nh, nl), make_docs, "%d explicit target(s) x 3 kinds x %d names, %d heading(s) x %d titles x 2 levels, %d link(s) x 9 destinations x 3 styles x 3 placements, all orders by rotation" % (
+        F.append(Family("docs/T%d-H%d-L%d" % (nt, nh, nl), make_docs, "%d explicit target(s) x 5 kinds x %d names, %d heading(s) x %d titles x 2 levels, %d link(s) x 10 destinations x 3 styles x 3 placements, all orders by rotation" % (
             nt, len(NAMES), nh, len(TITLES), nl), args=dict(nt=nt, nh=nh, nl=nl), nontrivial="resolved", max_forks=400000, required=((nt, nh, nl) in ((1, 1, 1), (0, 2, 1), (1, 1, 2)))))
+    F.append(Family("docs/T2-H0-L1", make_docs, "2 explicit targets (5 kinds incl. titled admonition / captioned table) in both orders, 1 text-less link ([](#t) or <project:#t>) at top level", args=dict(nt=2, nh=0, nl=1, plain_links=True), nontrivial="resolved", max_forks=400000))
     F.append(Family("docs/custom-slug-func", make_docs, "1 target, 1 heading, 1 link with a custom case-preserving heading_slug_func (reverses the title)", args=dict(nt=1, nh=1, nl=1, slugfunc=True),
                     nontrivial="resolved", max_forks=400000))
     return F
